@@ -75,3 +75,182 @@ def r10_3(ctx):
         return "{" + ", ".join(runs) + "}"
     ctx.ob("is_threefold_repetition:true-set", true_set == want, b.where((0, 0)),
            "evaluated for every count 0..=255: reports a repetition for counts %s; the property needs exactly %s (a position seen at least twice before)" % (fmt(true_set), fmt(want)))
+
+
+# ---- R10.1 / R10.2 / R10.4 / R10.6 ---------------------------------------------------------------
+from wa.mir import operand_alias
+from wa.expr import root_local, data_slice
+from wa.cond import dominating_facts
+from wa.linear import linear
+
+LOOP_FN = "uci::play_game_uci"
+POP = "uci::play_out_position"
+CLEAR = "draw_table::DrawTable::clear"
+ADD = "draw_table::DrawTable::add_board_to_draw_table"
+REMOVE = "draw_table::DrawTable::remove_board_from_draw_table"
+ABS = "engine::alpha_beta_search"
+OOT = "utils::out_of_time"
+
+
+def _table_calls(b, table_local, mode):
+    """Blocks calling a DrawTable method / HashMap::insert on the table rooted at table_local."""
+    out = {}
+    for bb, t in b.iter_calls():
+        c = callee_of(t) or ""
+        if not t["args"]:
+            continue
+        al = operand_alias(b, t["args"][0])
+        if al is None or al[0] != table_local:
+            continue
+        if c.startswith("draw_table::DrawTable::"):
+            out[bb] = c.split("::")[-1]
+        elif c.endswith("HashMap::<K, V, S, A>::insert"):
+            out[bb] = "insert"
+        elif c.endswith("HashMap::<K, V, S, A>::clear"):
+            out[bb] = "clear"
+    return out
+
+
+def r10_12(ctx):
+    """`position`: the table is cleared before it is repopulated, the start position is recorded
+    once on every path, and each applied move is followed by one add."""
+    f = ctx.facts
+    lb = f.body(LOOP_FN)
+    pb = f.body(POP)
+    ctx.note_fn(LOOP_FN, POP)
+    lex, pex = Exprs(lb), Exprs(pb)
+    # the table local of the command loop and the position arm
+    tables = [l for l in range(len(lb.locals)) if lb.local_ty(l) == "draw_table::DrawTable"]
+    if len(tables) != 1:
+        raise ShapeNotRecognised("play_game_uci: expected one DrawTable local, found %d" % len(tables))
+    T = tables[0]
+    pcalls = lb.calls_to(POP)
+    if len(pcalls) != 1:
+        raise ShapeNotRecognised("play_game_uci: %d calls of play_out_position" % len(pcalls))
+    pbb, pt = pcalls[0]
+    passes_table = any((operand_alias(lb, a) or (None,))[0] == T for a in pt["args"])
+    ctx.ob("position-arm:rebuilds-the-session-table", passes_table, lb.where(lb.term_loc(pbb)), "play_out_position receives the session's repetition table")
+    tc = _table_calls(lb, T, "loop")
+    clears = [bb for bb, k in tc.items() if k == "clear"]
+    cleared_in_arm = any(lb.node_dominates(c, pbb) and c != pbb and
+                         any(d[0] == "bin" and d[1] == "Eq" and ("str", "position") in (strip_refs(d[2]), strip_refs(d[3])) and (vals is None and excl == [0] or vals == [1])
+                             for d, vals, excl, s, tg in dominating_facts(lb, lex, c)) for c in clears)
+    # inside play_out_position
+    tp = [i for i in range(1, pb.arg_count + 1) if pb.local_ty(i) == "&mut draw_table::DrawTable"]
+    if len(tp) != 1:
+        raise ShapeNotRecognised("play_out_position(.., draw_table: &mut DrawTable)")
+    ptc = {}
+    for bb, t in pb.iter_calls():
+        c = callee_of(t) or ""
+        if not t["args"]:
+            continue
+        al = operand_alias(pb, t["args"][0])
+        if al is None or al[0] != tp[0]:
+            continue
+        if c.startswith("draw_table::DrawTable::"):
+            ptc[bb] = c.split("::")[-1]
+        elif c.endswith("HashMap::<K, V, S, A>::insert"):
+            ptc[bb] = "insert"
+        elif c.endswith("::clear"):
+            ptc[bb] = "clear"
+    rets = pb.return_blocks()
+    inner_clears = {bb for bb, k in ptc.items() if k == "clear"}
+    populate = {bb for bb, k in ptc.items() if k in ("insert", "add_board_to_draw_table")}
+    cleared_inside = bool(inner_clears) and all(not pb.reaches(0, r, removed_nodes=inner_clears) for r in rets) and \
+        all(not pb.reaches(0, p, removed_nodes=inner_clears) for p in populate)
+    ctx.ob("position:table-cleared-before-rebuild", cleared_in_arm or cleared_inside, lb.where(lb.term_loc(pbb)),
+           "cleared in the `position` arm before play_out_position: %s; cleared inside play_out_position on every path before anything is recorded: %s" % (cleared_in_arm, cleared_inside))
+    # start position recorded once on every path to return
+    ins = []
+    for bb, k in ptc.items():
+        if k == "insert":
+            args = pex.call_args(bb)
+            keye = strip_refs(args[1])
+            ok_key = keye[0] == "field" and keye[2] == "zobrist_key" and pb.local_ty(root_local(keye) or 0) == "board::BoardState"
+            ok_val = args[2] == ("const", 1)
+            if ok_key and ok_val:
+                ins.append(bb)
+    ok = bool(ins) and all(not pb.reaches(0, r, removed_nodes=set(ins)) for r in rets) and rets
+    ctx.ob("play_out_position:start-position-recorded", bool(ok), pb.where(pb.term_loc(ins[0])) if ins else pb.file,
+           "every path to return records the start position with count 1 (insert(board.zobrist_key, 1)); %s" % (
+               "holds" if ok else "NOT on all paths: some `position` commands leave the record without their own start position"))
+    # not inside the move loop
+    loops = pb.loops()
+    in_loop = [bb for bb in ins for h, body_ in loops.items() if bb in body_]
+    ctx.ob("play_out_position:start-recorded-once", not in_loop, pb.file, "the start insert is outside the move loop")
+    # each make_move followed by exactly one add on the same board before the next iteration
+    mm = [bb for bb, t in pb.iter_calls(callee="uci::make_move")]
+    adds = {bb for bb, k in ptc.items() if k == "add_board_to_draw_table"}
+    for i, m in enumerate(mm):
+        inl = [h for h, body_ in loops.items() if m in body_]
+        if not inl:
+            ctx.ob("play_out_position:make_move#%d:in-loop" % i, False, pb.where(pb.term_loc(m)), "make_move outside the move loop")
+            continue
+        h = min(inl, key=lambda hh: len(loops[hh]))
+        # from make_move, the loop header is not reachable without passing an add
+        ok = not pb.reaches(m, h, removed_nodes=adds) and not pb.reaches(m, m, removed_nodes=adds)
+        # and the add comes after (not before) within the iteration: header -> make_move does not pass an add
+        early = any(pb.node_dominates(a, m) and a in loops[h] and pb.node_dominates(h, a) for a in adds)
+        ctx.ob("play_out_position:make_move#%d:followed-by-add" % i, ok and not early, pb.where(pb.term_loc(m)),
+               "after each applied move the resulting position is counted once before the next move (add after make_move: %s, add before make_move in the same iteration: %s)" % (ok, early))
+    ctx.floor("make_move calls in play_out_position", len(mm), 1)
+
+
+def r10_4(ctx):
+    """add stores old+1, remove stores old-1 at board.zobrist_key (old defaults to 0 in add)."""
+    f = ctx.facts
+    for fn, delta in ((ADD, 1), (REMOVE, -1)):
+        b = f.body(fn)
+        ctx.note_fn(fn)
+        ex = Exprs(b)
+        ins = [(bb, t) for bb, t in b.iter_calls() if (callee_of(t) or "").endswith("HashMap::<K, V, S, A>::insert")]
+        short = fn.split("::")[-1]
+        if len(ins) != 1:
+            ctx.ob("%s:one-store" % short, False, b.file, "%d stores into the table" % len(ins))
+            continue
+        bb, t = ins[0]
+        args = ex.call_args(bb)
+        keye = strip_refs(args[1])
+        ok_key = keye[0] == "field" and keye[2] == "zobrist_key"
+        le = linear(args[2])
+        ok_val = False
+        desc = show_expr(args[2], b)[:80]
+        if le is not None and le[1] == delta and len(le[0]) == 1:
+            (term, cf), = le[0].items()
+            gets = [x for x in subexprs(term) if x[0] == "call" and x[1].endswith("::get")]
+            samekey = any(strip_refs(g[2][1]) == keye for g in gets)
+            ok_val = cf == 1 and samekey
+        ctx.ob("%s:stores-count%+d" % (short, delta), ok_key and ok_val, b.where(b.term_loc(bb)),
+               "stores `%s` at board.zobrist_key; must be the count read for the same key %+d" % (desc, delta))
+
+
+def r10_6(ctx):
+    """Every search node consults the repetition record before it is evaluated in any way: no path
+    from entry to a return avoids the test, except the clock abort."""
+    f = ctx.facts
+    b = f.body(ABS)
+    ctx.note_fn(ABS)
+    ex = Exprs(b)
+    tests = {bb for bb, t in b.iter_calls(callee=IS3)}
+    abort_edges = set()
+    for s in b.normal:
+        if s in b.reachable and b.term(s)["k"] == "switch":
+            d = ex.switch_discr(s)
+            if d[0] == "call" and d[1] == OOT:
+                abort_edges.add((s, b.term(s)["otherwise"]))
+    rets = b.return_blocks()
+    bad = [r for r in rets if b.reaches(0, r, removed_nodes=tests, removed_edges=abort_edges)]
+    where = b.file
+    detail = "every non-aborted path through a node passes is_threefold_repetition(board)"
+    if bad:
+        # name an exit that avoids the test: an assignment to the return place reachable without it
+        reach = b.reach_from(0, tests, abort_edges)
+        for loc, st in b.iter_stmts():
+            if st["k"] == "assign" and st["place"]["local"] == 0 and loc[0] in reach:
+                where = b.where(loc)
+                break
+        for bb2, t2 in b.iter_calls():
+            if t2["dest"]["local"] == 0 and bb2 in reach:
+                where = b.where(b.term_loc(bb2))
+        detail = "a node can be scored without consulting the repetition record (e.g. at the search horizon): a move into a third occurrence is then not valued as a draw"
+    ctx.ob("alpha_beta_search:repetition-test-on-every-node", not bad and bool(tests), where, detail)
